@@ -337,7 +337,11 @@ func runC09Distance(c *Ctx) {
 			}
 			stops++
 			good := false
-			for _, gd := range guardsAtBlock(r.Block()) {
+			var gds []Guard
+			for _, g0 := range guardsAtBlock(r.Block()) {
+				gds = append(gds, expandGuardDeep(g0)...)
+			}
+			for _, gd := range gds {
 				bo, ok := gd.Cond.(*ssa.BinOp)
 				if !ok || bo.Op != token.GTR || !gd.Truth {
 					continue
